@@ -192,6 +192,10 @@ def axisSelect [OfNat K 1] (sh : List Nat) (sel : List (List Nat)) : Coo K :=
     let k := unravel lens r
     ravel sh ((List.range sh.length).map fun d => (sel.getD d []).getD (k.getD d 0) 0)
 
+/-- SliceOperator, one axis: `npix` consecutive pixels, starting at `floor((n − npix)/2)` when centred, else at 0 -/
+def sliceSel (n npix : Nat) (center : Bool) : List Nat :=
+  (List.range npix).map fun k => (if center then (n - npix) / 2 else 0) + k
+
 /-- indices selected by a Python slice `start:stop:step` (step > 0, 0 ≤ start) on an axis of length `n` -/
 def sliceIdx (start stop step n : Nat) : List Nat :=
   let stop' := min stop n
